@@ -55,6 +55,8 @@ pub enum Funds {
     Excess,
     OtherDenom,
     TwoCoins,
+    /// exact amount, one coin, denom differing from the configured one only in letter case
+    CaseVariant,
 }
 
 #[derive(Clone, Debug)]
@@ -155,6 +157,7 @@ pub enum ExecCfg {
 const DEP_DENOM: &str = "udep";
 const MSG_DENOM: &str = "umsg";
 const OTHER_DENOM: &str = "uother";
+const DEP_DENOM_CASE: &str = "UDEP";
 
 fn to_rule(t: &ThresholdResponse) -> (Rule, u64) {
     match t {
@@ -404,7 +407,7 @@ impl Ms {
         // voters
         let n = h.rng.range(1, 6) as usize;
         let mut voters: Vec<(String, u64)> = vec![];
-        let hostile = self.prop == "C06" && h.rng.chance(1, 3);
+        let hostile = self.prop == "C06" && h.rng.chance(1, 3) && over.is_none();
         for i in 0..n {
             let a = if hostile && !voters.is_empty() && h.rng.chance(1, 3) {
                 h.rng.pick(&voters).0.clone() // repeated address
@@ -416,11 +419,25 @@ impl Ms {
         if let Some(o) = &over {
             voters = o.voters.clone();
         }
+        if hostile && h.rng.chance(1, 3) && !voters.is_empty() {
+            // weights whose sum does not fit 64 bits: instantiation has to refuse them
+            let i = h.rng.below_usize(voters.len());
+            voters[i].1 = if h.rng.chance(1, 2) { u64::MAX } else { 1u64 << 63 };
+            if voters.len() > 1 {
+                let j = (i + 1) % voters.len();
+                voters[j].1 = voters[j].1.max(1u64 << 63);
+            }
+        }
+        if hostile && h.rng.chance(1, 4) && !voters.is_empty() {
+            // the same entry listed twice verbatim (same address, same weight)
+            let v = h.rng.pick(&voters).clone();
+            voters.push(v);
+        }
         let total: u128 = voters.iter().map(|v| v.1 as u128).sum();
         if total > u64::MAX as u128 {
-            return None;
+            h.out.count("instantiate_attempts_with_total_beyond_u64");
         }
-        let total = total as u64;
+        let total = total.min(u64::MAX as u128) as u64;
         let mut rule = gen_rule(&mut h.rng, total);
         let mut period = match h.rng.below(20) {
             0..=2 => Duration::Height(h.rng.range(1, 4)),
@@ -479,16 +496,23 @@ impl Ms {
                 }
             }
             Kind::Flex => {
-                // group needs unique members
+                // the group must refuse repeated members: benign worlds list each once, hostile worlds
+                // pass the list as generated (repeats incl. verbatim ones, oversized totals)
                 let mut uniq: Vec<(String, u64)> = vec![];
                 for v in &voters {
-                    if !uniq.iter().any(|u| u.0 == v.0) {
+                    if let Some(u) = uniq.iter_mut().find(|u| u.0 == v.0) {
+                        u.1 = v.1; // last write wins, as the group's storage would do
+                    } else {
                         uniq.push(v.clone());
                     }
                 }
+                let listed: Vec<(String, u64)> = if hostile { voters.clone() } else { uniq.clone() };
+                if listed.len() != uniq.len() {
+                    h.out.count("group_instantiate_attempts_with_repeated_member");
+                }
                 let gmsg = cw4_group::msg::InstantiateMsg {
                     admin: Some(gadmin.clone()),
-                    members: uniq.iter().map(|(a, x)| cw4::Member { addr: a.clone(), weight: *x }).collect(),
+                    members: listed.iter().map(|(a, x)| cw4::Member { addr: a.clone(), weight: *x }).collect(),
                 };
                 let g = match w.c.instantiate(w.c.codes.group, &owner, &gmsg, "group", None) {
                     Res::Ok(a) => a,
@@ -500,6 +524,9 @@ impl Ms {
                 }
                 w.gchange_heights.insert(h0);
                 let gtotal: u64 = uniq.iter().fold(0u64, |a, u| a.saturating_add(u.1));
+                if listed.len() != uniq.len() {
+                    h.out.count("group_instantiated_with_repeated_member");
+                }
                 let rule = match rule {
                     Rule::Count(x) if x > gtotal || gtotal == 0 => {
                         if gtotal == 0 {
@@ -590,6 +617,7 @@ impl Ms {
         for a in pl.actors.iter().chain([w.stranger.clone()].iter()) {
             w.c.fund(a, 1_000_000, DEP_DENOM);
             w.c.fund(a, 1_000_000, OTHER_DENOM);
+            w.c.fund(a, 1_000_000, DEP_DENOM_CASE);
         }
         let ms = w.ms.to_string();
         w.c.fund(&ms, 1_000_000_000, MSG_DENOM);
@@ -668,6 +696,24 @@ impl Ms {
                 }
                 let hgt = w.c.height();
                 let t = w.c.time_ns();
+                let max_exp = match w.period {
+                    Duration::Height(d) => Exp::H(hgt + d),
+                    Duration::Time(sx) => Exp::T(t + sx * 1_000_000_000),
+                };
+                let around_max = match (max_exp, rng.below(6)) {
+                    (Exp::H(x), 0) => Exp::H(x + 1),
+                    (Exp::H(x), 1) => Exp::H(x),
+                    (Exp::H(x), _) => Exp::H(x.saturating_sub(1)),
+                    (Exp::T(x), 0) => Exp::T(x + 1),
+                    (Exp::T(x), 1) => Exp::T(x + 500_000_000),
+                    (Exp::T(x), 2) => Exp::T(x + 999_999_999),
+                    (Exp::T(x), 3) => Exp::T(x),
+                    (Exp::T(x), _) => Exp::T(x.saturating_sub(1)),
+                    (e, _) => e,
+                };
+                if rng.chance(1, 4) {
+                    return (member_or_any(rng), Op::Propose { msgs, latest: Some(around_max), funds: if matches!(w.dep, Some(Dep { token: DepTok::Native(_), .. })) { Funds::Right } else { Funds::None } });
+                }
                 let latest = match rng.below(10) {
                     0 => Some(Exp::Never),
                     1 => Some(Exp::H(hgt)),         // already expired
@@ -684,6 +730,7 @@ impl Ms {
                         2 => Funds::Excess,
                         3 => Funds::OtherDenom,
                         4 => Funds::TwoCoins,
+                        5 => Funds::CaseVariant,
                         _ => Funds::Right,
                     }
                 } else if rng.chance(1, 12) {
@@ -775,6 +822,7 @@ impl Ms {
                     Funds::Excess => vec![coin(d + 1, DEP_DENOM)],
                     Funds::OtherDenom => vec![coin(d, OTHER_DENOM)],
                     Funds::TwoCoins => vec![coin(d, DEP_DENOM), coin(1, OTHER_DENOM)],
+                    Funds::CaseVariant => vec![coin(d, DEP_DENOM_CASE)],
                 };
                 let ms = w.ms.clone();
                 w.c.exec(sender, &ms, &msg, &f)
@@ -1673,6 +1721,33 @@ impl Ms {
                 );
                 true
             }
+            // executor = Member: membership changes in the SAME block as Execute
+            ("C05", 2) | ("C05", 3) => {
+                let over = Override { kind: Kind::Flex, voters: vec![(pool().actors[0].clone(), 3), (pool().actors[1].clone(), 2), (pool().actors[2].clone(), 1)], rule: Rule::Count(3), period: if h.idx == 2 { Duration::Height(20) } else { Duration::Time(600) }, executor: Some(ExecCfg::Member), deposit: false };
+                self.play(
+                    h,
+                    over,
+                    vec![
+                        Act::Adv(1),
+                        Act::Do(0, prop_op(vec![ping(1, 0, hist)])),
+                        Act::Do(0, prop_op(vec![ping(2, 0, hist)])),
+                        Act::Do(0, prop_op(vec![ping(3, 0, hist)])),
+                        Act::Adv(1),
+                        Act::Group(vec![], vec![1]),                 // B removed ...
+                        Act::Do(1, Op::Execute { id: 1 }),           // ... and tries to execute in the same block
+                        Act::Group(vec![(4, 0)], vec![]),            // E joins with weight 0 ...
+                        Act::Do(4, Op::Execute { id: 1 }),           // ... and may execute at once
+                        Act::ByStranger(Op::Execute { id: 2 }),
+                        Act::Group(vec![], vec![2]),
+                        Act::Do(2, Op::Execute { id: 2 }),
+                        Act::Adv(1),
+                        Act::Do(1, Op::Execute { id: 2 }),
+                        Act::Do(0, Op::Execute { id: 2 }),
+                        Act::Do(0, Op::Execute { id: 2 }),
+                    ],
+                );
+                true
+            }
             // zero-weight proposer and everybody abstains; pass only at expiry
             ("C03", 0) | ("C03", 1) | ("C03", 2) => {
                 let rule = match h.idx {
@@ -1774,6 +1849,7 @@ impl Monitor for Ms {
                 "propose_with_None_funds_rejected",
                 "propose_with_OtherDenom_funds_rejected",
                 "propose_with_TwoCoins_funds_rejected",
+                "propose_with_CaseVariant_funds_rejected",
                 "recoverability_probes",
             ],
         }
